@@ -82,7 +82,7 @@ Section WithNow.
   Lemma good_ocra_generation r : good (ocra_generation r).
   Proof.
     unfold ocra_generation. destruct (negb (is_post _)); [basic|]. destruct (body_fields _) as [f|]; [|basic].
-    destruct (decode_ocra_common f) as [[[[[sec code] raw] suite] input]|]; [|basic].
+    destruct (decode_ocra_common false f) as [[[[[sec code] raw] suite] input]|]; [|basic].
     pose proof (good_ocra_prepare sec [] raw false suite input) as Hp.
     destruct (ocra_prepare sec [] raw false suite input) as [[cfg inp]|e]; [|exact Hp].
     destruct (generate_ocra sec cfg inp); basic.
@@ -90,7 +90,7 @@ Section WithNow.
   Lemma good_ocra_validation r : good (ocra_validation r).
   Proof.
     unfold ocra_validation. destruct (negb (is_post _)); [basic|]. destruct (body_fields _) as [f|]; [|basic].
-    destruct (decode_ocra_common f) as [[[[[sec code] raw] suite] input]|]; [|basic].
+    destruct (decode_ocra_common true f) as [[[[[sec code] raw] suite] input]|]; [|basic].
     pose proof (good_ocra_prepare sec code raw true suite input) as Hp.
     destruct (ocra_prepare sec code raw true suite input) as [[cfg inp]|e]; [|exact Hp].
     cbv zeta. pose proof (validate_ocra_cost sec code cfg inp) as Hc.
